@@ -104,7 +104,7 @@ def rule_escape(report, prog, res, tier):
             if not isinstance(f, FuncInfo):
                 raise AnalysisError('C13-R1: %s.%s not found' % (q, m))
             n_roots += 1
-            esc = Escape(prog, res, split_entry=True, implicit=implicit,
+            esc = Escape(prog, res, split_entry=True, implicit=implicit, raise_helpers=('nfc.clf.pn53x.Chipset.chipset_error',),
                          catalog={'binascii.unhexlify': ['binascii.Error']},
                          method_catalog=dict(USB_CATALOG, decode=['UnicodeDecodeError']) if 'udp' in q else USB_CATALOG)
             r = esc.esc(f, Ctx(c))
@@ -162,6 +162,16 @@ def rule_mapping(report, prog):
         ('nfc.clf.rcs380.Device.send_rsp_recv_cmd', {"error == 'RF_OFF_ERROR'": 'nfc.clf.BrokenLinkError',
                                                      "error == 'RECEIVE_TIMEOUT_ERROR'": 'nfc.clf.TimeoutError', 'FALL': 'nfc.clf.TransmissionError'}),
     ]
+    # status bits combine (CommunicationError.__eq__ is a mask test), so the order of the tests is the priority of the classes:
+    # field loss wins over a receive timeout that is reported together with it
+    from ..cfg import cfg_of
+    f = prog.func('nfc.clf.rcs380.Device.send_rsp_recv_cmd')
+    cfg = cfg_of(f)
+    off = [t for e, t in cfg.test_nodes.items() if norm(e) == "error == 'RF_OFF_ERROR'"]
+    tmo = [t for e, t in cfg.test_nodes.items() if norm(e) == "error == 'RECEIVE_TIMEOUT_ERROR'"]
+    report.check(len(off) == 1 and len(tmo) == 1 and cfg.dominates(off[0], tmo[0]), 'C13-R2',
+                 key(f.qname, 'RF-off is tested before receive timeout (field loss wins when both bits are set)'), f.loc(),
+                 'a status with both RF_OFF and RECEIVE_TIMEOUT set is classified as TimeoutError: the field loss is not reported as BrokenLinkError')
     for q, want in specs:
         f = prog.func(q)
         got = {}
@@ -249,6 +259,13 @@ triage.add('C13', 'C13-R1',
 X = 'nfc.clf.pn53x'
 R = 'nfc.clf.rcs380'
 MUTANTS = [
+    ('rcs380-timeout-tested-before-rf-off', 'nfc.clf.rcs380', """            if error == "RF_OFF_ERROR":
+                raise nfc.clf.BrokenLinkError(str(error))
+            if error == "RECEIVE_TIMEOUT_ERROR":
+                raise nfc.clf.TimeoutError(str(error))""", """            if error == "RECEIVE_TIMEOUT_ERROR":
+                raise nfc.clf.TimeoutError(str(error))
+            if error == "RF_OFF_ERROR":
+                raise nfc.clf.BrokenLinkError(str(error))""", 'C13-R2'),
     ('pn53x-handler-dropped', X, """        except Chipset.Error as error:
             self.log.debug(error)
             if error.errno == 1:
